@@ -75,12 +75,13 @@ def completeField (o : Oracle) (fi : FInfo) (sh : Shape) (p : Path) : Option Out
   | (.panic m, e) => (failed sh.nn, e.append (eff [⟨p, "recovered: " ++ m⟩] [] 1))
   | (.block, e) => if sh.nn then (none, e.append (eff [⟨p, mustNotBeNull⟩])) else (some .null, e)
   | (.reached, e) =>
-    match o.res p with
+    let inv : List (String × String) := if fi.plain then [] else [(pathStr p, "resolver")]
+    match o.outcome fi p with
     | .missing => (failed sh.nn, e.append (eff [] [] 0 [pathStr p]))
-    | .err m => (failed sh.nn, e.append (eff [⟨p, m⟩] [(pathStr p, "resolver")]))
-    | .panic m => (failed sh.nn, e.append (eff [⟨p, "recovered: " ++ m⟩] [(pathStr p, "resolver")] 1))
+    | .err m => (failed sh.nn, e.append (eff [⟨p, m⟩] inv))
+    | .panic m => (failed sh.nn, e.append (eff [⟨p, "recovered: " ++ m⟩] inv 1))
     | .val v =>
-      let e1 := e.append (eff [] [(pathStr p, "resolver")])
+      let e1 := e.append (eff [] inv)
       if sh.isIface && v.isNull then
         (if sh.nn then (none, e1.append (eff [⟨p, mustNotBeNull⟩])) else (some .null, e1))
       else
